@@ -10,7 +10,7 @@ most the written members (`tilesFromStrict_sound'`); a directory needs `PK\x01\x
 
 namespace FileFmt
 
-theorem take4_of_sigAt {w : Bytes} {i : Nat} (h : SigAt w i) : (w.drop i).take 4 = sigEOCD := by
+theorem zipTrunc_take4_of_sigAt {w : Bytes} {i : Nat} (h : SigAt w i) : (w.drop i).take 4 = sigEOCD := by
   unfold SigAt at h
   obtain ⟨t, ht⟩ := h
   rw [← ht, List.take_left' (by rfl)]
@@ -36,7 +36,7 @@ theorem endRecData_spec (P : Bytes) (r : EndRec) (h : endRecData P = some r) :
         simp only [Option.some.injEq] at h
         subst h
         simp only
-        have h4 := take4_of_sigAt (rfindSig_sigAt _ _ hs)
+        have h4 := zipTrunc_take4_of_sigAt (rfindSig_sigAt _ _ hs)
         rw [List.drop_drop] at h4 hl
         simp only [ne_eq, Decidable.not_not, List.length_take, List.length_drop] at hl
         exact ⟨by omega, h4⟩
@@ -53,7 +53,7 @@ theorem tilesFromStrict_mono (file : Bytes) (sd ocd : Nat) : ∀ (infos : List C
       · simp at h
       · have := tilesFromStrict_mono file sd ocd t _ p h; omega
 
-theorem take_drop_take (F : Bytes) (k x n : Nat) (h : x + n ≤ k) : ((F.take k).drop x).take n = (F.drop x).take n := by
+theorem zipTrunc_take_drop_take (F : Bytes) (k x n : Nat) (h : x + n ≤ k) : ((F.take k).drop x).take n = (F.drop x).take n := by
   rw [List.drop_take, List.take_take]; congr 1; omega
 
 /-- what the walk reads of one member, as a function of the bytes from the member's position on -/
@@ -78,15 +78,15 @@ theorem tilesFromStrict_cons (file : Bytes) (sd ocd pos : Nat) (i : CDInfo) (t :
 theorem walkReads_take (F : Bytes) (k x : Nat) (hx : x + 30 ≤ k)
     (hk : x + 30 + (walkReads ((F.take k).drop x)).2.1 + (walkReads ((F.take k).drop x)).2.2.1 ≤ k) :
     walkReads ((F.take k).drop x) = walkReads (F.drop x) := by
-  have e30 : ((F.take k).drop x).take 30 = (F.drop x).take 30 := take_drop_take F k x 30 hx
+  have e30 : ((F.take k).drop x).take 30 = (F.drop x).take 30 := zipTrunc_take_drop_take F k x 30 hx
   simp only [walkReads] at hk ⊢
   rw [e30] at hk ⊢
   have en : (((F.take k).drop x).drop 30).take (leNat ((((F.drop x).take 30).drop 26).take 2)) =
       ((F.drop x).drop 30).take (leNat ((((F.drop x).take 30).drop 26).take 2)) := by
-    rw [List.drop_drop, List.drop_drop, take_drop_take F k (x + 30) _ (by omega)]
+    rw [List.drop_drop, List.drop_drop, zipTrunc_take_drop_take F k (x + 30) _ (by omega)]
   have ee : (((F.take k).drop x).drop (30 + leNat ((((F.drop x).take 30).drop 26).take 2))).take (leNat ((((F.drop x).take 30).drop 28).take 2)) =
       ((F.drop x).drop (30 + leNat ((((F.drop x).take 30).drop 26).take 2))).take (leNat ((((F.drop x).take 30).drop 28).take 2)) := by
-    rw [List.drop_drop, List.drop_drop, take_drop_take F k _ _ (by omega)]
+    rw [List.drop_drop, List.drop_drop, zipTrunc_take_drop_take F k _ _ (by omega)]
   rw [en, ee]
 
 /-- **a walk that ends inside the first `k` bytes of a file is a walk on the file** -/
@@ -196,7 +196,7 @@ theorem zipCD_append : ∀ (a b : List ZEntry) (off : Nat), zipCD off (a ++ b) =
     congr 3; omega
 
 /-- at the boundary after `m < zs.length` written members the file holds a local header -/
-theorem boundary_is_local (pre post : Bytes) (zs : List ZEntry) (m : Nat) (hm : m < zs.length) :
+theorem zipTrunc_boundary_is_local (pre post : Bytes) (zs : List ZEntry) (m : Nat) (hm : m < zs.length) :
     ((pre ++ (zipLocals zs ++ post)).drop (pre.length + (zipLocals (zs.take m)).length)).take 4 = sigLocal := by
   obtain ⟨z, rest, hd⟩ : ∃ z rest, zs.drop m = z :: rest := by
     cases h : zs.drop m with
@@ -279,7 +279,7 @@ theorem parseCD_count (crc32 : Bytes → Nat) (inflate : Bytes → Option Bytes)
       omega
 
 /-- the end-record signature cannot start inside `x ++ e` before `e` when `x` has no byte 6 and `e` starts with the signature -/
-theorem no_sig_in_name (x e : Bytes) (d : Nat) (hd : d < x.length) (h6 : (6 : UInt8) ∉ x) (he : e.take 4 = sigEOCD) :
+theorem zipTrunc_no_sig_in_name (x e : Bytes) (d : Nat) (hd : d < x.length) (h6 : (6 : UInt8) ∉ x) (he : e.take 4 = sigEOCD) :
     ((x ++ e).drop d).take 4 ≠ sigEOCD := by
   intro h
   have h3 : (((x ++ e).drop d).take 4)[3]? = some 6 := by rw [h]; rfl
@@ -297,7 +297,7 @@ theorem no_sig_in_name (x e : Bytes) (d : Nat) (hd : d < x.length) (h6 : (6 : UI
 
 /-! ### the theorem -/
 
-theorem sig_ne : sigEOCD ≠ sigLocal ∧ sigCD ≠ sigLocal := by decide
+theorem zipTrunc_sig_ne : sigEOCD ≠ sigLocal ∧ sigCD ≠ sigLocal := by decide
 
 /-- core: `F` = bytes in front, the written local entries, the written directory `CD`, a 22-byte end record `E` -/
 theorem openTiledStrict_take_none_core (crc32 : Bytes → Nat) (inflate : Bytes → Option Bytes) (pre CD E F : Bytes) (front : List ZEntry)
@@ -341,36 +341,36 @@ theorem openTiledStrict_take_none_core (crc32 : Bytes → Nat) (inflate : Bytes 
         have hwF := tilesFromStrict_of_take F k sd r.offsetCd _ _ _ hw (by omega)
         rw [hF] at hwF
         obtain ⟨hm, hsdm⟩ := tilesFromStrict_sound' sd r.offsetCd (front ++ [zl]) pre (CD ++ E) _ sd hl
-          (by rw [hCDhead]; exact sig_ne.2) hwF
+          (by rw [hCDhead]; exact zipTrunc_sig_ne.2) hwF
         rw [sortByOffset_length] at hm hsdm
         have hsigF : (F.drop r.location).take 4 = sigEOCD := by
-          rw [← take_drop_take F k r.location 4 (by omega)]; exact hsigP
+          rw [← zipTrunc_take_drop_take F k r.location 4 (by omega)]; exact hsigP
         by_cases h0 : r.sizeCd = 0
         · rw [h0] at hp
           have hnil := parseCD_zero _ _ _ hp
           subst hnil
-          have hb := boundary_is_local pre (CD ++ E) (front ++ [zl]) 0 hzpos
+          have hb := zipTrunc_boundary_is_local pre (CD ++ E) (front ++ [zl]) 0 hzpos
           rw [← hF] at hb
           simp only [List.length_nil] at hsdm
           rw [← hsdm, show sd = r.location by omega, hsigF] at hb
-          exact sig_ne.1 hb
+          exact zipTrunc_sig_ne.1 hb
         · have hhead := parseCD_head _ _ _ _ hp h0
           have h4 : 4 ≤ r.sizeCd := by
             have := congrArg List.length hhead
             simp only [List.length_take, List.length_drop, sigCD, List.length_cons, List.length_nil] at this
             omega
           have hheadF : (F.drop sd).take 4 = sigCD := by
-            rw [List.take_take, Nat.min_eq_left h4, take_drop_take F k sd 4 (by omega)] at hhead; exact hhead
+            rw [List.take_take, Nat.min_eq_left h4, zipTrunc_take_drop_take F k sd 4 (by omega)] at hhead; exact hhead
           by_cases hmn : infos.length < (front ++ [zl]).length
-          · have hb := boundary_is_local pre (CD ++ E) (front ++ [zl]) infos.length hmn
+          · have hb := zipTrunc_boundary_is_local pre (CD ++ E) (front ++ [zl]) infos.length hmn
             rw [← hF, ← hsdm, hheadF] at hb
-            exact sig_ne.2 hb
+            exact zipTrunc_sig_ne.2 hb
           · have hmeq : infos.length = (front ++ [zl]).length := by omega
             rw [hmeq, List.take_length] at hsdm
             have hdropF : F.drop sd = CD ++ E := by
               rw [hF, hsdm, ← List.append_assoc, List.drop_left' (by simp)]
             have hdata : ((F.take k).drop sd).take r.sizeCd = (CD ++ E).take r.sizeCd := by
-              rw [take_drop_take F k sd _ (by omega), hdropF]
+              rw [zipTrunc_take_drop_take F k sd _ (by omega), hdropF]
             rw [hdata, hCD] at hp
             have hcnt := parseCD_count crc32 inflate zl E front pre.length _ _ infos hz h0 hp hmeq
             rw [← hCD] at hcnt
@@ -386,7 +386,7 @@ theorem openTiledStrict_take_none_core (crc32 : Bytes → Nat) (inflate : Bytes 
                 List.drop_eq_nil_of_le (by omega), List.nil_append]
             rw [hwin] at hsigF
             rw [← hX] at h6
-            exact no_sig_in_name X E _ (by omega) h6 hEsig hsigF
+            exact zipTrunc_no_sig_in_name X E _ (by omega) h6 hEsig hsigF
 
 /-- **every proper prefix of a written archive file is refused by the round-8 opener, whatever the payload**: for bytes `pre`
     (the dimod header) followed by the archive `zipfile` appends for ANY non-empty list of members — any contents, in
@@ -461,5 +461,66 @@ theorem cqmFileLoadTiled_cut (crc32 : Bytes → Nat) (inflate : Bytes → Option
         (endRecData_prefix_none _ (fun i hi => absurd hi (hhdr i)) j hj)]; rfl)
     k hk
   exact ⟨e, by rw [he]; rfl⟩
+
+/-! ### the complete file: the repaired loader returns what the loader of the round-7 theorems returns -/
+
+theorem containerLoadAt_full (pre text body : Bytes) (maj min : UInt8) (parse : Bytes → Option H) (h : H)
+    (verOk : List Nat → Bool) (openAt : Nat → Bytes → Option β) (a : β)
+    (hh : HeaderOK parse text h) (hver : verOk [maj.toNat, min.toNat] = true)
+    (hopen : openAt (makeHeader pre maj min text).length (makeHeader pre maj min text ++ body) = some a) :
+    containerLoadAt pre parse verOk openAt (makeHeader pre maj min text ++ body) = .ok (h, a) := by
+  unfold containerLoadAt
+  rw [readHeader_full pre text maj min parse h hh.1 hh.2.1 hh.2.2 body]
+  have hst : (makeHeader pre maj min text ++ body).length - body.length = (makeHeader pre maj min text).length := by
+    rw [List.length_append, Nat.add_sub_cancel]
+  simp only [hver, Bool.not_true, Bool.false_eq_true, if_false, hst, hopen]
+
+theorem zipOpen_chars (crc32 : Bytes → Nat) (inflate : Bytes → Option Bytes) (file : Bytes) (ms : List (Bytes × Bytes))
+    (h : zipOpen (readDirBytes crc32 inflate) file = some ms) :
+    zipOpen (readDirChars crc32 inflate) file = some (ms.map fun m => (asciiChars m.1, m.2)) := by
+  unfold zipOpen at h ⊢
+  split at h
+  · simp at h
+  · rename_i r hr
+    split at h
+    · simp at h
+    · rename_i hsd
+      rw [if_neg hsd]
+      unfold readDirChars
+      rw [h]; rfl
+
+/-- on the complete written file the round-8 loader and the loader of `cqm_file_roundtrip_closed` agree -/
+theorem cqmFileLoadTiled_full_eq (crc32 : Bytes → Nat) (inflate : Bytes → Option Bytes) (deflate : Option (Bytes → Bytes)) (μ : Nat → ZMeta)
+    (s : CqmSrc) (hlen : (dumpsDict (cqmCountsDict (cqmCounts s.content.erase))).length + 65 < 2 ^ 32)
+    (hz : ∀ z ∈ mkEntries crc32 deflate μ 0 (cqmMembers 4 s.content), z.OK crc32 inflate)
+    (hl : ∀ z ∈ mkEntries crc32 deflate μ 0 (cqmMembers 4 s.content), z.LocalOK)
+    (hcount : (mkEntries crc32 deflate μ 0 (cqmMembers 4 s.content)).length < 256 ^ 2)
+    (hsize : (dumpCqm crc32 deflate μ s).length < 4294967295) :
+    cqmFileLoadTiled true 8 parseCqmHeader crc32 inflate parseExprHeader (fun d => (loadsJ d).isSome) (dumpCqm crc32 deflate μ s) =
+      loadCqm crc32 inflate (dumpCqm crc32 deflate μ s) := by
+  generalize hzdef : mkEntries crc32 deflate μ 0 (cqmMembers 4 s.content) = zs at hz hl hcount
+  have hdump : dumpCqm crc32 deflate μ s = cqmFileHeader s ++ zipBytes (cqmFileHeader s).length zs := by rw [dumpCqm, hzdef]
+  rw [hdump] at hsize ⊢
+  have hsz : (cqmFileHeader s).length + (zipLocals zs).length + (zipCD (cqmFileHeader s).length zs).length < 4294967295 := by
+    simp only [zipBytes, List.length_append] at hsize; omega
+  have h1 := openTiledStrict_zipBytes crc32 inflate (cqmFileHeader s) zs hz hl hcount hsz
+  have h256 : (256 : Nat) ^ 4 = 4294967296 := by decide
+  obtain ⟨a, b, c⟩ := eocdRecord_shape zs.length (zipCD (cqmFileHeader s).length zs).length ((cqmFileHeader s).length + (zipLocals zs).length)
+  obtain ⟨d, _, _⟩ := eocdRecord_fields zs.length (zipCD (cqmFileHeader s).length zs).length ((cqmFileHeader s).length + (zipLocals zs).length)
+    (cqmFileHeader s ++ (zipLocals zs ++ zipCD (cqmFileHeader s).length zs)).length (by omega) (by omega) hcount
+  have hfile : cqmFileHeader s ++ zipBytes (cqmFileHeader s).length zs = (cqmFileHeader s ++ (zipLocals zs ++ zipCD (cqmFileHeader s).length zs)) ++
+      eocdRecord zs.length (zipCD (cqmFileHeader s).length zs).length ((cqmFileHeader s).length + (zipLocals zs).length) := by
+    simp [zipBytes, List.append_assoc]
+  have h2 : zipOpen (readDirBytes crc32 inflate) (cqmFileHeader s ++ zipBytes (cqmFileHeader s).length zs) =
+      some (zs.map fun z => (z.name, z.content)) := by
+    rw [hfile]
+    exact zipOpen_full _ _ _ _ a b c (by rw [d]; simp only [List.length_append]; omega)
+      (readDirBytes_zipBytes crc32 inflate (cqmFileHeader s) zs hz hcount hsz)
+  have h2' := zipOpen_chars crc32 inflate _ _ h2
+  unfold cqmFileLoadTiled loadCqm cqmFileLoadW
+  unfold cqmFileHeader at h1 h2' ⊢
+  rw [containerLoadAt_full cqmPrefix _ _ 2 0 parseCqmHeader _ cqmVerOk (openTiledChars crc32 inflate) _ (cqm_header_ok _ hlen) (by decide)
+      (by unfold openTiledChars; rw [h1]; rfl),
+    containerLoadW_full cqmPrefix _ _ 2 0 parseCqmHeader _ cqmVerOk _ _ (cqm_header_ok _ hlen) (by decide) h2']
 
 end FileFmt
